@@ -162,6 +162,13 @@ def compile_case(acc, root, main_rel, lookup_rel, prog_for_ref, macros_for_ref, 
         api_ok = True
     except (ParseError, SsbCompilerError, ValueError):
         api_ok = False
+    if api_ok and any(i is None for i in c.routine_infos) and p.returncode != 0:
+        # gaps in the routine ids (`def 99 { .. }`): the compiler fills the table with None entries, which the documented JSON
+        # structure cannot express; the command failing (without output) is not a wrong exit status
+        acc.count("results_not_expressible_in_the_documented_json")
+        if p.stdout.strip():
+            acc.violation("output-on-failure", {"stdout": p.stdout[:200]}, inp)
+        return
     if api_ok != (p.returncode == 0):
         acc.violation(gsig("exit-status", "api-ok" if api_ok else "api-rejects"), {"status": p.returncode, "stderr": p.stderr[-300:]}, inp)
         return
